@@ -955,4 +955,8 @@ def _overwriteat_rule(chk, prog):
                 chk.violation(rule, "buffer.c", fn.name, idx.name, c.loc,
                               "%s calls buffer_overwrite_at with `%s` without having refused %s: the helper extends the buffer to position + length "
                               "without filling the gap, so the call succeeds where it should raise and the buffer shows bytes nobody wrote" % (fn.name, idx.name, miss))
+    if "buffer_overwrite_at" not in tu.funcs:
+        chk.note("%s: buffer.c has no gap-less overwrite helper (buffer_overwrite_at); nothing to decide" % rule)
+        chk.floor(rule, 0, n)
+        return
     chk.floor(rule, 2, n)
